@@ -132,7 +132,9 @@ impl<T: Send + Sync> AtomicIter<T> for ConIterOfVec<T> {
     }
 
     fn early_exit(&self) {
-        self.counter().store(self.vec_len)
+        // all elements that are not reserved yet are reserved and dropped here:
+        // they will not be yielded, and must not be forgotten.
+        drop(self.fetch_n(self.vec_len));
     }
 }
 
